@@ -22,6 +22,8 @@ import TLX.Lemmas.Export
 import TLX.Props.C06Bytes
 import TLX.Props.C18
 import TLX.Props.C04
+import TLX.Crypto.Hash
+import TLX.Crypto.Toy
 namespace TLX.Props.Export
 open TLX TLX.MainLoop TLX.Export TLX.OutBytes TLX.Lemmas.Export
 open TLX.Spec.Rfc1071 TLX.Spec.FrameParse TLX.Spec.PcapngWalk
@@ -296,5 +298,91 @@ theorem abort_kinds (k : Abort) : k.name ∈ abortNames := by
     | frame d => cases d <;> decide
     | overflow => decide
   | write e => cases e <;> decide
+
+/-! ### C04 end to end (at the level of exported frames) -/
+section Demux
+open TLX.Spec.Demux TLX.Lemmas.MainLoop
+
+variable (info : Nat → Pipeline.Info)
+
+/-- **C04 for the composed TLS machine, whole captures.** Two captures `A`, `B` (TCP, UDP, DSBs, junk) whose TLS-relevant
+    TCP packets belong to disjoint flows, merged in any interleaving `C`: for every key log `kl`, the frames the TLS
+    sessions of the merged run export are a permutation of the frames of the two separate runs (whole per-session blocks
+    are permuted: each session's frames stay together and in order). -/
+theorem export_demux_tls (o : Opts) {A B C : List (MainLoop.Item Keylog.Key)} (hm : Merge A B C)
+    (hd : ∀ a ∈ tcpView o A, ∀ b ∈ tcpView o B, sameFlow a b = false)
+    (st : State Keylog.Key Pipeline.Conn QuicPipeline.QConn) (h0 : st.tls = []) (kl : List Keylog.Key) :
+    let TM := Pipeline.tlsMachine H P info
+    let QM := QuicPipeline.quicMachine mask H P info
+    (C04.tlsExport TM (runItems TM QM o st C).tls kl).Perm
+      (C04.tlsExport TM (runItems TM QM o st A).tls kl ++ C04.tlsExport TM (runItems TM QM o st B).tls kl) :=
+  (C04.run_tls_sessions_merge _ _ o hm hd st h0).flatMap _
+
+theorem tcpOnly_views (o : Opts) (keys : List Keylog.Key) (X : List (MainLoop.Item Keylog.Key))
+    (h : ∀ it ∈ X, ∃ p, it = .frame p ∧ p.l4 = .tcp) : dsbKeys o X = [] ∧ quicView o keys X = [] := by
+  induction X with
+  | nil => exact ⟨rfl, rfl⟩
+  | cons it rest ih =>
+    obtain ⟨p, rfl, hl⟩ := h it (by simp)
+    obtain ⟨i1, i2⟩ := ih (fun x hx => h x (by simp [hx]))
+    have hc : (∃ q, classify o (.frame p : MainLoop.Item Keylog.Key) = .tls q) ∨
+        (∃ w, classify o (.frame p : MainLoop.Item Keylog.Key) = .ignore w) := by
+      simp only [classify, hl]
+      split
+      · exact .inr ⟨_, rfl⟩
+      · split
+        · exact .inr ⟨_, rfl⟩
+        · exact .inl ⟨_, rfl⟩
+    rcases hc with ⟨q, hq⟩ | ⟨w, hw⟩
+    · exact ⟨by simp [dsbKeys, hq] at i1 ⊢; exact i1, by simp only [quicView, hq]; exact i2⟩
+    · exact ⟨by simp [dsbKeys, hw] at i1 ⊢; exact i1, by simp only [quicView, hw]; exact i2⟩
+
+/-- **… and for everything the run hands to the writer**, when the captures are TCP only: the exported frame list of the
+    merged capture is a permutation of the concatenation of the two separate exports — same options, same key-log file.
+    (With DSBs the three runs end with different key logs; with QUIC the hypothesis of `C04.quic_route_exact` is needed.)
+    TO LIFT THIS TO FILE BYTES: the output file is SHB ++ IDB ++ one Enhanced Packet Block per frame in this order
+    (`export_wellformed`), sessions in the order of their first packet in the capture; so the file of the merge is not the
+    concatenation of the two files but has the same MULTISET of packet blocks (each block = `epbBody` of one frame, a
+    function of the frame alone); an order-insensitive comparison of the packet blocks (or sorting sessions by first time
+    stamp on both sides) is what a file-level statement needs. -/
+theorem export_demux_frames (o : Opts) (keys : List Keylog.Key) {A B C : List (MainLoop.Item Keylog.Key)}
+    (hm : Merge A B C) (hd : ∀ a ∈ tcpView o A, ∀ b ∈ tcpView o B, sameFlow a b = false)
+    (htcp : ∀ it ∈ C, ∃ p, it = .frame p ∧ p.l4 = .tcp) :
+    let TM := Pipeline.tlsMachine H P info
+    let QM := QuicPipeline.quicMachine mask H P info
+    (exportAll TM QM o (runItems TM QM o ⟨keys, [], []⟩ C)).Perm
+      (exportAll TM QM o (runItems TM QM o ⟨keys, [], []⟩ A) ++ exportAll TM QM o (runItems TM QM o ⟨keys, [], []⟩ B)) := by
+  intro TM QM
+  have hA : ∀ it ∈ A, ∃ p, it = .frame p ∧ p.l4 = .tcp := fun it h => htcp it ((hm.mem it).mpr (.inl h))
+  have hB : ∀ it ∈ B, ∃ p, it = .frame p ∧ p.l4 = .tcp := fun it h => htcp it ((hm.mem it).mpr (.inr h))
+  obtain ⟨a1, a2⟩ := tcpOnly_views o keys A hA
+  obtain ⟨b1, b2⟩ := tcpOnly_views o keys B hB
+  obtain ⟨c1, c2⟩ := tcpOnly_views o keys C htcp
+  rw [C18.fresh_run_is, C18.fresh_run_is, C18.fresh_run_is, a1, a2, b1, b2, c1, c2]
+  simp only [quicRun, List.foldl_nil, List.flatMap_nil, List.append_nil]
+  exact C04.tls_export_union TM o (hm.filterMap _) hd keys
+
+end Demux
+
+/-! ### non-vacuity: the function runs, and each kind of outcome occurs (Lean's own hashes, the toy ciphers, no mask) -/
+namespace Ex
+def args0 : Args := ⟨none, none, false, false, false⟩
+def noMask : Quic.Dissect.MaskFn := fun _ _ _ => none
+end Ex
+
+open Ex in
+/-- a capture with a TCP segment to port 80 and a short-header QUIC-looking datagram (`C06Bytes.exFile`, written by dpkt):
+    nothing to decrypt, the output file is the two header blocks -/
+example : exportFile noMask Crypto.realPrims Cipher.Toy.prims args0 false none C06Bytes.exFile
+    = .file (OutBytes.shb ++ OutBytes.idb 20000) := by decide +kernel
+open Ex in
+example : exportFile noMask Crypto.realPrims Cipher.Toy.prims args0 false none []
+    = .abort (.ingest (.container .hdrShort)) := by decide +kernel
+open Ex in
+/-- `-p x` on an unreadable capture: the option error comes first, as in main.py -/
+example : exportFile noMask Crypto.realPrims Cipher.Toy.prims { args0 with pArg := some [[0x78]] } false none []
+    = .badOptions := by decide +kernel
+open Ex in
+example : optionsBad (freshState : Prior) args0 = false := by decide +kernel
 
 end TLX.Props.Export
